@@ -26,11 +26,37 @@ KIND_NAMES = {
 H = []
 
 
+def guess_native(name):
+    """which native stub patches (lib/replay.py STUB_PATCHES) a harness needs when its counterexample is replayed"""
+    if name.startswith(("hmove_", "hsetup_")):
+        return ["toggle_piece", "toggle_ep", "toggle_castle"]
+    if name.startswith(("c01_castle_", "c01_filter_")):
+        return ["attack_targets"]
+    if name.startswith("c01_wire_pawn_"):
+        return ["pawn_move_targets", "pawn_attack_targets", "expand", "en_passant"]
+    if name.startswith("c01_wire_"):
+        return ["knight", "sliding", "king", "pawn", "castle", "filter"]
+    if name.startswith("c06_effect_"):
+        return ["vstub_checkmate", "vstub_check"]
+    if name.startswith(("c06_check_", "c06_ending_", "c16_draw_")):
+        return ["generate_moves", "get_attack_targets"]
+    if name == "c18_mate":
+        return ["game_ending"]
+    if name.startswith("c13_dis_"):
+        return ["to_algebraic"]
+    if name.startswith("c19_cls_"):
+        return ["square_string_to_bitboard"]
+    if name == "m5_tables_wired":
+        return ["magic_new"]
+    return []
+
+
 def add(name, props, tier, desc, functions, assumptions, stubs=(), unwind=8, kind="obligation",
-        module=BOARD, est_s=60, heavy=False, witness_of=None):
+        module=BOARD, est_s=60, heavy=False, witness_of=None, native=None):
     H.append(dict(name=name, fq=module + name, props=list(props), tier=tier, desc=desc,
                   functions=list(functions), assumptions=assumptions, stubs=list(stubs), unwind=unwind,
-                  kind=kind, est_s=est_s, heavy=heavy, witness_of=witness_of))
+                  kind=kind, est_s=est_s, heavy=heavy, witness_of=witness_of,
+                  native_stubs=list(native) if native is not None else guess_native(name)))
 
 
 APPLY_FNS = {
@@ -127,7 +153,7 @@ add("c02_sep_replace_piece", ["C02", "C05"], "quick",
 
 MG = "move_generator::kani_verif::"
 MT = "move_generator::magic_table::kani_verif::"
-NOSPILL = "smallvec::SmallVec::reserve_one_unchecked (cold grow path) -> panic!: a list that would exceed its inline capacity is a reported failure, not a dropped path"
+NOSPILL = "smallvec::SmallVec::reserve_one_unchecked and ::try_grow (the grow paths) -> panic!: a list that would exceed its inline capacity is a reported failure, not a dropped path; SmallVec::spilled -> false (sound because no path can move a list to the heap once the grow paths panic)"
 ATTSTUB = "Targets::generate_attack_targets -> returns a harness-chosen arbitrary bitboard A and records (colour, board) it was asked about; contract discharged by the A1 lemmas + C11"
 
 for col, cname, w in [("w", "White", True), ("b", "Black", False)]:
@@ -144,18 +170,18 @@ for col, cname, w in [("w", "White", True), ("b", "Black", False)]:
         ["generate_valid_moves"], "fully symbolic Disjoint board; symbolic subset kept by the filter stub",
         stubs=[NOSPILL, "generate_knight_moves, generate_sliding_moves, generate_king_moves, generate_pawn_moves, generate_castle_moves -> push one marker move and record (board, colour); remove_invalid_moves -> records the list it sees, keeps a symbolic subset; contracts discharged by the stage harnesses c01_*"],
         module=MG, est_s=60)
-    add(f"c01_wire_pawn_{col}", ["C01"], "quick",
+    add(f"c01_wire_pawn_{col}", ["C01"], "experimental",
         f"generate_pawn_moves for {cname} with its four sub-stages stubbed: capture targets = attack squares holding enemy pieces, a last-rank move becomes exactly the four promotions (same squares, same capture tag) and never stays standard, other moves stay, en-passant moves appended once, existing list entries preserved",
         ["generate_pawn_moves", "PAWN_PROMOTIONS", "PawnPromotionChessMove::new"],
         "fully symbolic Disjoint board; symbolic outputs of the stubbed sub-stages",
         stubs=[NOSPILL, "generate_pawn_move_targets, generate_pawn_attack_targets, expand_piece_targets, generate_en_passant_moves -> symbolic outputs + argument records; contracts discharged by c01_pawn_*, c01_expand_*, c01_ep_*"],
         module=MG, unwind=10, est_s=120)
     for kind in ["std", "promo", "ep", "oo", "ooo"]:
-        add(f"c01_filter_{kind}_{col}", ["C01", "C04"], "quick" if kind in ("std",) else "thorough",
+        add(f"c01_filter_{kind}_{col}", ["C01", "C04"], "experimental",
             f"remove_invalid_moves on a singleton list holding a Legalish {KIND_NAMES[kind]} by {cname}: kept <=> A misses the mover's king in the successor position; A requested for the opponent on the successor position; board bit-identical afterwards",
             ["remove_invalid_moves"] + APPLY_FNS[kind] + ["ChessMove::apply", "ChessMove::undo"], STEP_ASSUME + "; A arbitrary 64-bit attack map",
             stubs=[NOSPILL, ATTSTUB], module=MG, est_s=200)
-add("c01_filter_pair_w", ["C01"], "thorough",
+add("c01_filter_pair_w", ["C01"], "experimental",
     "remove_invalid_moves on two candidates: each is tried on the original position with its own attack map, kept independently, order preserved, board restored",
     ["remove_invalid_moves", "StandardChessMove::apply", "StandardChessMove::undo"], STEP_ASSUME, stubs=[NOSPILL, ATTSTUB], module=MG, est_s=400, heavy=True)
 for nm, d in [("m5_knight_table", "generate_knight_targets_table()[sq] == on-board L-jumps (no wrap-around), symbolic sq"),
@@ -226,13 +252,15 @@ for start in ["00", "16", "32", "48"]:
         f"real to_algebraic on squares {int(start)}..{int(start)+15}: two bytes, 'a'+file then '1'+rank (lower case); equals the stand-in used by the SAN harnesses",
         ["common::bitboard::square::to_algebraic", "assert_square", "tables::ALGEBRAIC"], "16 concrete one-hot inputs per harness (the input space is the 64 squares: complete over 4 harnesses)",
         module=AN, unwind=66, est_s=120)
-add("c13_dis_piece", ["C13"], "quick",
-    "get_disambiguating_chars for a symbolic non-pawn piece, symbolic move and <=3 rival moves from pairwise distinct origins: '' iff no rival; file letter if no rival shares the file; else rank digit if none shares the rank; else file+rank",
-    ["get_disambiguating_chars", "get_file_char", "get_rank_char"], "symbolic squares; 0..3 rivals; strings <= 2 bytes",
-    stubs=[NOSPILL, NAMESTUB], module=AN, est_s=400)
-add("c13_dis_pawn", ["C13"], "quick",
-    "get_disambiguating_chars for pawn moves: captures (standard, promotion, en passant) always carry the origin file letter; quiet pushes carry nothing",
-    ["get_disambiguating_chars", "get_file_char"], "symbolic squares, symbolic captured kind, 0..1 rival", stubs=[NOSPILL, NAMESTUB], module=AN, est_s=200)
+for n in range(4):
+    add(f"c13_dis_piece_{n}", ["C13"], "quick",
+        f"get_disambiguating_chars for a symbolic non-pawn piece, symbolic move and {n} rival move(s) from pairwise distinct origins: '' iff no rival; file letter if no rival shares the file; else rank digit if none shares the rank; else file+rank",
+        ["get_disambiguating_chars", "get_file_char", "get_rank_char"], f"symbolic squares; exactly {n} rivals (list lengths concrete per harness); strings <= 2 bytes",
+        stubs=[NOSPILL, NAMESTUB], module=AN, est_s=100)
+for k, kn in [("std", "standard capture"), ("promo", "capturing promotion"), ("ep", "en passant")]:
+    add(f"c13_dis_pawn_{k}", ["C13"], "quick",
+        f"get_disambiguating_chars for a pawn {kn}: always the origin file letter; quiet pushes carry nothing",
+        ["get_disambiguating_chars", "get_file_char"], "symbolic squares, symbolic captured kind; no rivals in the list", stubs=[NOSPILL, NAMESTUB], module=AN, est_s=100)
 add("c13_sel", ["C13"], "quick",
     "get_ambiguous_moves on a symbolic board and a symbolic 3-entry candidate list: selects exactly the other candidates with the same piece kind on their origin, the same destination and a different origin; board only read",
     ["get_ambiguous_moves", "Board::get"], "fully symbolic Disjoint board; 3 symbolic candidates whose origins are occupied", stubs=[NOSPILL], module=AN, est_s=300)
@@ -248,9 +276,53 @@ for kind in ["std", "promo", "ep", "oo", "ooo"]:
             stubs=["common::bitboard::square::square_string_to_bitboard (regex-based) -> arithmetic parser; NOT discharged: the regex parser is outside the claim"],
             module=SF, est_s=120)
 
+VSTUB = "evaluate::player_is_in_checkmate / player_is_in_check -> arbitrary answers + record of (player, board occupancy) they were asked about; contracts: c06_ending_*, c06_check_*"
+for kind in ["std", "promo", "ep", "oo", "ooo"]:
+    for col, cname in [("w", "White"), ("b", "Black")]:
+        add(f"c06_effect_{kind}_{col}", ["C06", "C04"], "quick" if kind in ("std", "oo") else "thorough",
+            f"lazily_calculate_chess_move_effect on a Legalish {KIND_NAMES[kind]} by {cname}: applies the move, asks the verdicts about the OPPONENT on the SUCCESSOR position, undoes; stores Checkmate if mated, else Check if in check, else None; board bit-identical afterwards",
+            ["MoveGenerator::lazily_calculate_chess_move_effect", "ChessMove::apply", "ChessMove::undo", "ChessMove::set_effect"] + APPLY_FNS[kind],
+            STEP_ASSUME, stubs=[VSTUB], module=MG, est_s=200)
+    
+for col, cname in [("w", "White"), ("b", "Black")]:
+    add(f"c06_effect_wire_{col}", ["C06"], "quick",
+        f"generate_moves_and_lazily_update_chess_move_effects for {cname}: every listed move is annotated exactly once, with the opponent of the side to move; the annotated list is returned",
+        ["MoveGenerator::generate_moves_and_lazily_update_chess_move_effects", "lazily_update_chess_move_effect_for_checks_and_checkmates"],
+        "fully symbolic Disjoint board; two marker moves from the stubbed generator",
+        stubs=[NOSPILL, "MoveGenerator::generate_moves -> two marker moves; MoveGenerator::lazily_calculate_chess_move_effect -> records its player argument, sets Check (its own contract: c06_effect_*)"],
+        module=MG, est_s=120, native=["generate_moves_ewire", "effect_ewire"])
+add("c19_uci_promo_suffix", ["C19"], "quick",
+    "ChessMove::to_uci of a capturing promotion a7xb8 for each of the four promotion pieces (the whole domain of the suffix selector) and of a plain move: origin, destination, suffix letter q/r/b/n naming the piece / no suffix",
+    ["ChessMove::to_uci", "to_algebraic", "alloc::fmt::format"], "all arguments concrete (core::fmt with symbolic &str arguments is not executable in CBMC: >10 GB measured); exhaustive over the promotion piece, squares fixed",
+    module=AN, unwind=66, est_s=300)
+
+def witness(name, props, module, desc, unwind=8, est_s=60):
+    add(name, props, "quick", "vacuity witness: " + desc + "; same set-up as the obligations of this family, ends in assert!(false); must FAIL on exactly that assertion",
+        [], "as the obligation harnesses of its family", kind="witness", module=module, unwind=unwind, est_s=est_s)
+
+
+witness("witness_h3", ["C05", "C02"], BOARD, "per-mutator key lemma (push_en_passant_target)")
+witness("witness_c12_put_remove", ["C12"], BOARD, "put/remove step")
+witness("witness_c01_castle_w", ["C01"], MG, "castle stage")
+witness("witness_c01_ep_b", ["C01"], MG, "en-passant stage")
+witness("witness_c06_ending_w", ["C06"], EV, "game_ending verdicts")
+witness("witness_c18_eg", ["C18"], EV, "phase-switch symmetry")
+witness("witness_c13_dis_2", ["C13"], AN, "disambiguation with 2 rivals")
+witness("witness_c19_cls_std_w", ["C19"], SF, "UCI classifier, standard move")
+add("c02_hist_3ply", ["C02", "C05"], "thorough",
+    "two symbolic 3-ply histories (pawn pushes / knight jumps onto empty squares, real apply) from the standard position: equal placement and rights => (keys equal <=> en-passant targets equal)",
+    ["StandardChessMove::apply", "Board::put/remove/push_en_passant_target/lose_castle_rights", "PositionInfo toggles (real tables)"],
+    "both histories fully symbolic within the move class; start position concrete", est_s=1500, heavy=True)
+
+import os
+EXPERIMENTAL = bool(os.environ.get("VERIF_EXPERIMENTAL"))
+
+
 def select(prop, tier):
     out = []
     for h in H:
+        if h["tier"] == "experimental" and not EXPERIMENTAL:
+            continue
         if prop in h["props"] and (tier == "thorough" or h["tier"] == "quick"):
             out.append(h)
     return out
